@@ -34,7 +34,7 @@ pub async fn dispatch(ctx: &Ctx, rep: &mut ShardReport) -> bool {
             data::run(ctx, rep).await;
             true
         }
-        "C05" | "C06" => {
+        "C05" | "C06" | "C10" => {
             admin::run(ctx, rep).await;
             true
         }
